@@ -390,6 +390,28 @@ def id3_frame_inputs(seed=1):
             for v in (range(256) if k in (1, 2) else (0x00, 0x7F, 0x80, 0xFF)):
                 if data[k] != v:
                     out.append(("id3-frame-byte:%s@%d=%02x" % (name, k, v), tag_of(name, data[:k] + bytes([v]) + data[k + 1:])))
+    # frames an ID3v1 tag is derived from, in front of audio that ends in an ID3v1 tag: a save (default v1=1) rewrites
+    # that tag from the v2 frames -- numbers out of the byte range, negative, with digits of other scripts, separators ...
+    v1 = b"TAG" + b"old title".ljust(30, b"\x00") + b"\x00" * 60 + b"1999" + b"\x00" * 28 + b"\x00\x05" + b"\x0c"
+    audio = (b"\xff\xfb\x90\x64" + b"\x00" * 413) * 4
+    texts = ["", "-1", "-3/12", " -7", "+5", "0", "255", "256", "70000", "99999999999999999999", "1/", "/", "/3", "1/2/3", "x", "1e3", "1_000",
+             "\u0661\u0662", "\u0663/4", "\uff11", "-0", "--1", "1-", "(255)", "(-1)", "(999)", "(RX)", "((x)", "(12", "12)", "2001-13-45", "-2001", "0000",
+             "20011", "\x00", "1\x002", "\ud7ff", "\U0001F600"]
+    for fid in ("TRCK", "TCON", "TDRC", "TYER", "TIT2", "TPE1", "TALB", "TPOS"):
+        for ti, tx in enumerate(texts):
+            for enc, codec in ((3, "utf-8"), (1, "utf-16"), (0, "latin-1")):
+                try:
+                    body = bytes([enc]) + tx.encode(codec)
+                except UnicodeError:
+                    continue
+                for ver in (4, 3):
+                    if ver == 3 and enc == 3:
+                        continue
+                    out.append(("id3-v1-rewrite:%s/%d/enc%d/v2.%d" % (fid, ti, enc, ver), tag_of(fid, body, ver) + audio + v1))
+    for cd in ("", "ID3v1 Comment", "x"):
+        for tx in ("", "c" * 40, "\u4e00" * 31, "a\x00b"):
+            body = b"\x03" + b"eng" + cd.encode("utf-8") + b"\x00" + tx.encode("utf-8")
+            out.append(("id3-v1-rewrite:COMM/%s/%d" % (cd, len(tx)), tag_of("COMM", body) + audio + v1))
     return out
 
 
